@@ -120,7 +120,9 @@ def check_hp(ctx: Ctx, case):
 def filter_cases(draw):
     which = draw(st.sampled_from(["hp1600", "log_hp", "diff_log"]))
     return {"which": which, "series": draw(series(positive=which != "hp1600")),
-            "as_int": draw(st.sampled_from([False, False, True]))}
+            "as_int": draw(st.sampled_from([False, False, True])),
+            # positive values decaying into the subnormal range (finite logs; nothing may be floored)
+            "tiny_positive": which != "hp1600" and draw(st.integers(0, 5)) == 0}
 
 
 def check_filters(ctx: Ctx, case):
@@ -129,7 +131,10 @@ def check_filters(ctx: Ctx, case):
     sub = "derived_filters"
     y = build(case["series"])
     which = case["which"]
-    if case.get("as_int") and np.max(np.abs(y)) < 1e15:
+    if case.get("tiny_positive"):
+        y = (np.abs(y) / (np.max(np.abs(y)) + 1e-300) + 0.01) * 10.0 ** -np.linspace(300, 322, len(y))
+        y = np.maximum(y, 5e-324)
+    elif case.get("as_int") and np.max(np.abs(y)) < 1e15:
         # counts (e.g. infected individuals) arrive as integer arrays; keep them positive for the log filters
         y = np.rint(y * (10.0 if np.max(np.abs(y)) < 50 else 1.0)).astype(np.int64)
         if which != "hp1600":
